@@ -302,17 +302,17 @@ itself a substitute issued earlier) has no all-original occurrence after the sta
 def MacNoLeak (ok : Char → Bool) : Prop :=
   ∀ (tbl : List (Str × Str)) (l : PStr) (pre t post v : Str), TblOk tbl → chars l = pre ++ t ++ post →
     MacTok t → macIgnored t = false → EndsOk ok pre → StartsOk ok post → lookup tbl t = some v →
-    NoOrigOcc t (macStage tbl l)
+    ∀ out, macStage tbl l = .ok out → NoOrigOcc t out
 
 /-- the property's statement: delimited by NON-WORD characters -/
 def MacNoLeakFull : Prop := MacNoLeak (fun c => !isWord c)
 
 /-- what the code guarantees: neighbours that are not hexadecimal digits, ':' or '-' -/
 theorem mac_no_leak_stage_partial : MacNoLeak (fun c => !isMacCls c) := by
-  intro tbl l pre t post v htbl hl ht hign hpre hpost hv
-  unfold macStage
-  refine applyAll_clears _ l t v (resolveSkip_stepsOk htbl _) ?_ (macTok_ne_nil ht)
-  refine resolveSkip_mem _ t v ?_ hv
+  intro tbl l pre t post v htbl hl ht hign hpre hpost hv out hout
+  obtain ⟨steps, hs, rfl⟩ := macStage_steps hout
+  refine applyAll_clears _ l t v (resolveGuard_stepsOk htbl hs) ?_ (macTok_ne_nil ht)
+  refine (resolveGuard_spec _ _ hs).2 t v ?_ hv
   unfold macKeys
   rw [List.mem_filter, hl]
   exact ⟨mac_found pre t post ht hpre hpost, by simp [hign]⟩
@@ -328,9 +328,7 @@ theorem mac_witness : ¬ MacNoLeakFull := by
     ⟨':', '5', '2', '5', '4', '0', '0', 'a', 'a', 'b', 'b', 'c', 'c', by decide, by decide, by decide, by decide,
       by decide, by decide, by decide, by decide, by decide, by decide, by decide, by decide, by decide, rfl⟩
     (by decide) (by intro c hc; simp at hc; subst hc; decide) (by intro c hc; simp at hc) (by decide)
-  have hstage : macStage [("52:54:00:aa:bb:cc".toList, "a9:80:fb:e0:9a:03".toList)] (orig "MAC:52:54:00:aa:bb:cc".toList)
-      = orig "MAC:52:54:00:aa:bb:cc".toList := by decide
-  rw [hstage] at this
+    (orig "MAC:52:54:00:aa:bb:cc".toList) (by rfl)
   exact this (orig "MAC:".toList) (orig "52:54:00:aa:bb:cc".toList) [] (by decide) (allOrig_orig _)
     (by decide)
 
@@ -352,7 +350,83 @@ theorem mac_no_leak_partial (cfg : Cfg) (tb : Tables) (htb : TablesOk tb) (call 
     subst this
     simp [chars] at hl1
     exact absurd hl1.2.1 (macTok_ne_nil ht)
-  · simp [pure, Except.pure] at h2; subst h2
-    exact mac_no_leak_stage_partial tb.mac l1 pre t post v htb.mac hl1 ht hign hpre hpost hv
+  · exact mac_no_leak_stage_partial tb.mac l1 pre t post v htb.mac hl1 ht hign hpre hpost hv l2 h2
+
+/-! ### passwords -/
+
+/-- at a key `password<w>` followed by one of the separators the first expression lists (`PwSep`: ':' / '='
+with optional blanks and double quotes, `--md5`, blanks) and a secret over the class of group 3 that does not
+start with '=' or '-', ended by a character outside that class or by the end of the line: the expression keeps
+key and separator and replaces exactly the secret -/
+theorem password_match_partial (w sep x post : Str) (hw : ∀ c ∈ w, isWordA c = true) (hsep : PwSep sep)
+    (hx : Secret x) (hpost : ∀ c, post.head? = some c → isSecret c = false) :
+    pwMatch1 (pwLit ++ (w ++ (sep ++ (x ++ post)))) = some (8 + w.length + sep.length, x.length) :=
+  pwMatch1_accepted w sep x post hw hsep hx hpost
+
+/-- on a line: when that key is the first one on the line, the stage's result is the text up to and including the
+separator unchanged, then `********` (inserted), then the rest of the line cleaned on its own — the secret is gone.
+PARTIAL with respect to "a secret that follows a 'password' key is masked": only for the notations of `PwSep`
+(`password='x'`, `Password=x`, `password={x}` are outside; listed in the evidence), for secrets over the class of
+group 3 (a character outside it ends the secret: `password=ab.cd` keeps `.cd`), and for a key that reaches the
+stage intact (known finding keyword-splits-password-key) -/
+theorem password_masked_partial (pre w sep x post : Str) (hpre : NoKeyBefore pre)
+    (hw : ∀ c ∈ w, isWordA c = true) (hsep : PwSep sep) (hx : Secret x) (hstar : x.head? ≠ some '*')
+    (hpost : ∀ c, post.head? = some c → isSecret c = false) :
+    passwordStage (orig (pre ++ (pwLit ++ (w ++ (sep ++ (x ++ post)))))) =
+      orig (pre ++ (pwLit ++ (w ++ sep))) ++ ins stars ++ subPw pwMatch1 0 (orig post) := by
+  have h1 := subPw1_masks pre w sep x post hpre hw hsep hx hpost
+  have e : pre ++ (pwLit ++ (w ++ (sep ++ (x ++ post)))) = (pre ++ (pwLit ++ (w ++ sep))) ++ (x ++ post) := by
+    simp only [List.append_assoc]
+  rw [e] at h1 ⊢
+  generalize pre ++ (pwLit ++ (w ++ sep)) = A at h1 ⊢
+  have hne : (chars (subPw pwMatch1 0 (orig (A ++ (x ++ post)))) != chars (orig (A ++ (x ++ post)))) = true := by
+    rw [h1]
+    simp only [bne_iff_ne, ne_eq, chars_append, chars_orig, chars_ins, List.append_assoc]
+    intro h
+    have h' := List.append_cancel_left h
+    obtain ⟨⟨c, r, rfl, _, _⟩, _⟩ := hx
+    have hs : stars = '*' :: "*******".toList := by decide
+    rw [hs] at h'
+    simp only [List.cons_append, List.cons.injEq] at h'
+    exact hstar (by simp [← h'.1])
+  simp only [passwordStage, hne, if_true]
+  exact h1
+
+example : PwSep [' ', '=', ' ', '"'] ∧ Secret "hunter2".toList ∧ NoKeyBefore "db ".toList ∧
+    chars (passwordStage (orig "db password_x = \"hunter2\" ok".toList)) = "db password_x = \"********\" ok".toList := by
+  refine ⟨?_, ⟨⟨'h', "unter2".toList, by decide, by decide, by decide⟩, by decide⟩, by unfold NoKeyBefore; decide, by decide⟩
+  exact PwSep.eqQuote [' '] [] [] [' '] [] (by unfold Blank; decide) (by unfold Quotes; decide)
+    (by unfold Blank; decide) (by unfold Blank; decide) (by unfold Blank; decide)
+
+/-! ### the hypotheses of the pipeline theorems are satisfiable (a worked configuration) -/
+
+/-- system `web1.abc.com`, everything switched on, one keyword -/
+def cfgX : Cfg := ⟨[.plain "DROPME".toList], ["secret".toList], true, true, true, false, "web1.abc.com".toList, 1048576⟩
+def callX : Call := ⟨[], false, false⟩
+def tbX : Tables :=
+  ⟨[("10.1.2.3".toList, "10.230.230.1".toList)],
+   [("web1.abc.com".toList, "b44e17fcea60.example.com".toList), ("db-1.abc.com".toList, "host2.example.com".toList)],
+   [("52:54:00:aa:bb:cc".toList, "a9:80:fb:e0:9a:03".toList)], []⟩
+
+example : TablesOk tbX :=
+  ⟨tblOk_of_all _ (by decide), tblOk_of_all _ (by decide), tblOk_of_all _ (by decide), tblOk_of_all _ (by decide)⟩
+
+/-- the stages in the order the code applies them; host names first, so `before = [hostname]` for the IPv4 stage -/
+example : stagesOf cfgX callX = [Stage.hostname] ++ Stage.ip :: [Stage.keyword, Stage.mac, Stage.password] := by decide
+example : stagesOf cfgX callX = [] ++ Stage.hostname :: [Stage.ip, Stage.keyword, Stage.mac, Stage.password] := by decide
+example : stagesOf cfgX callX = [Stage.hostname, Stage.ip, Stage.keyword] ++ Stage.mac :: [Stage.password] := by decide
+example : domainOf cfgX.fqdn = some "abc.com".toList ∧ shortName cfgX.fqdn = "web1".toList := by decide
+
+/-- a whole line through the model: host, address, keyword, MAC and password secret are replaced, the
+MAC after ':' (known finding) is not -/
+example : ((cleanLine Pat.hit cfgX tbX callX none
+      "db-1.abc.com 10.1.2.3:80 secret 52:54:00:aa:bb:cc MAC:52:54:00:aa:bb:cd password=hunter2".toList []).toOption.bind
+        (fun r => r.2.map chars)) =
+    some "host2.example.com 10.230.230.1:80 keyword0 a9:80:fb:e0:9a:03 MAC:52:54:00:aa:bb:cd password=********".toList := by
+  decide
+
+example : MacTok "52:54:00:aa:bb:cc".toList ∧ macIgnored "52:54:00:aa:bb:cc".toList = false :=
+  ⟨⟨':', '5', '2', '5', '4', '0', '0', 'a', 'a', 'b', 'b', 'c', 'c', by decide, by decide, by decide, by decide,
+    by decide, by decide, by decide, by decide, by decide, by decide, by decide, by decide, by decide, rfl⟩, by decide⟩
 
 end IV.CleanLine
